@@ -2,6 +2,7 @@ import S2T.Lemmas.ZipBomb
 import S2T.Lemmas.ZipBombFloat
 import S2T.Gen.ZipBomb
 import S2T.Gen.ZipOpenSites
+import S2T.Props.C11_Src
 /-!
 # C11 — ZIP-container bomb guard decides exactly and runs before any read
 
